@@ -714,6 +714,35 @@ async fn step(w: &mut World, gates: &mut mpsc::UnboundedReceiver<GateEvent>, t: 
                     cuts.push(json!({"k": tk, "full": full.len(), "kept": cut}));
                 }
             }
+            // the quoting-metrics file is a file being written too (flush body, not atomic): with --tear-metrics a flush that
+            // was in progress at the crash (a parked F body) leaves a prefix of the file -- any length, also none -- and a
+            // process that stops in its first life before any payment may stop before its first flush ran at all (no file).
+            // Only the C02 runs ask for this (what the count of payments is after such a crash is not judged there).
+            let mut metrics_cut = json!(0);
+            if res == json!("Ok") && std::env::args().any(|a| a == "--tear-metrics") {
+                fn find(dir: &std::path::Path, out: &mut Vec<PathBuf>) {
+                    if let Ok(rd) = std::fs::read_dir(dir) {
+                        for e in rd.flatten() {
+                            let p = e.path();
+                            if p.is_dir() { find(&p, out); } else if p.file_name().and_then(|n| n.to_str()) == Some("historic_quoting_metrics") { out.push(p); }
+                        }
+                    }
+                }
+                let mut files = vec![];
+                find(&w.dir, &mut files);
+                let flush_parked = w.parked.iter().any(|p| p.id.kind == "F");
+                for f in files {
+                    let full = std::fs::read(&f).unwrap_or_default();
+                    if flush_parked {
+                        let cut = torn_len(full.len(), w.cut_sel + w.restarts);
+                        std::fs::write(&f, &full[..cut.min(full.len())]).expect("torn metrics file");
+                        metrics_cut = json!({"full": full.len(), "kept": cut.min(full.len())});
+                    } else if w.restarts == 0 && w.paid == 0 && w.cut_sel % 3 == 0 {
+                        let _ = std::fs::remove_file(&f);
+                        metrics_cut = json!({"full": full.len(), "kept": -1});
+                    }
+                }
+            }
             let cut_info = json!(cuts);
             let tks_json = json!(tks);
             // every other restart is a restart twice in a row (the second one with no background work left: for the
@@ -742,7 +771,7 @@ async fn step(w: &mut World, gates: &mut mpsc::UnboundedReceiver<GateEvent>, t: 
                 w.paid = w.st().verif_received_payment_count();
                 // bodies of the crashed process are parked for ever; their late gate events are ignored
                 w.settle_constructor_flush(gates).await;
-                extra = json!({"cut": cut_info, "restarted": rounds, "tks": tks_json, "k": 0});
+                extra = json!({"cut": cut_info, "restarted": rounds, "tks": tks_json, "k": 0, "metricsCut": metrics_cut});
             }
         }
         other => panic!("unknown step {other}"),
